@@ -162,4 +162,10 @@ StoredOwners == UNION {UNION {{swarm[w][h][q] : q \in DOMAIN swarm[w][h]} : h \i
 (* announce of that connection was still in flight when it closed: the in-message mesh and the control *)
 (* mesh are independent queues, so a ConnectionClosed can overtake a queued announce (see DESIGN.md).   *)
 ClosedLeavesNothing == Quiescent => StoredOwners \cap closed = {}
+
+(* Liveness under weak fairness of the workers: a scrape whose connection stays open is eventually  *)
+(* answered (all parts merged), whatever else goes on                                               *)
+FairSpec == Spec /\ (\A w \in SwarmWorkers, p \in SockWorkers : WF_vars(SwarmIn(w, p)) /\ WF_vars(SwarmCtl(w, p)))
+                 /\ (\A p \in SockWorkers : WF_vars(SockOut(p)))
+ScrapeAnswered == \A c \in Conns : (pendscr[c] # {}) ~> (pendscr[c] = {} \/ c \notin open)
 =============================================================================
